@@ -6,7 +6,7 @@ import LzmaVerif.Props.C01
 
 "Interoperates" is split into (a) what can be proved – the writers' output satisfies the FORMAT, stated
 as an executable strict decoder that enforces every MUST rule of xz-file-format 1.x the way liblzma does
-(`XzStrict.decodeStrict`; the crate's own reader is laxer, see `crate_reader_is_laxer`) – and (b) what ties
+(`XzStrict.decodeStrict`; the crate's own reader is still laxer in two respects, see `crate_reader_is_laxer`) – and (b) what ties
 the format model to the reference: on every run the strict decoder, liblzma's decoder and the crate's
 reader are executed on the same files (our writer's output, liblzma's output for presets / filter chains /
 checks, structure-aware mutants with recomputed CRCs) and their verdicts and data are compared.
@@ -20,8 +20,9 @@ checks, structure-aware mutants with recomputed CRCs) and their verdicts and dat
   liblzma-produced payloads).
 * `xz_writer_index_overflow_rejected` – the boundary: an Index larger than 2^34 bytes (> 2^33 blocks,
   > 100 GiB of output) makes `write_stream_footer` truncate the backward size (`as u32`); liblzma would
-  reject that file.  Proved on the model, not replayable on a real machine (needs > 128 GiB of RAM);
-  recorded as an observation in DESIGN.md.
+  reject that file, and so does the crate's reader since it compares the backward size with the Index.
+  Proved on the model, not replayable on a real machine (needs > 128 GiB of RAM); recorded as an
+  observation in DESIGN.md.
 * LZIP: `lzip_writer_output_is_valid` (header version/dict byte, CRC, data size, member size fields all
   verified by the model reader, which enforces every field).
 * `.lzma`: `lzma_alone_roundtrip` is C01's theorem; the known divergence lc+lp>4 (liblzma refuses) is a
@@ -44,17 +45,23 @@ theorem strict_accepts_subset_of_reader (inp : List Nat) (cap : Nat) (d : List N
     (h : decodeStrict inp cap = .ok d n b) : Xz.decode true inp cap = .ok d n b :=
   strict_implies_lax inp cap d n b h
 
-/-- the crate's reader is strictly laxer than the format: a 56-byte file with a forged Index record
-    (and one with a forged backward size) is accepted by it and rejected by the strict decoder -/
+/-- the crate's reader is still laxer than the format in two respects — reserved Block Flags bits and non-shortest
+    multibyte integers (block header and Index): three small files accepted by it and rejected by the strict
+    decoder (and by liblzma).  Forged Index records / backward sizes are rejected by both since the reader fix
+    (`forged_witnesses_rejected`, C04). -/
 theorem crate_reader_is_laxer :
-    (∃ b, Xz.decode true laxWitness 16 = .ok [0x41] 56 b) ∧ decodeStrict laxWitness 16 = .err .invalidData ∧
-    (∃ b, Xz.decode true laxWitness2 16 = .ok [0x41] 56 b) ∧ decodeStrict laxWitness2 16 = .err .invalidData :=
-  ⟨lax_not_strict_witness.1, lax_not_strict_witness.2.2, lax_not_strict_witness_backward.1,
-   lax_not_strict_witness_backward.2⟩
+    (∃ b, Xz.decode true laxWitness 16 = .ok [0x41] 56 b) ∧ decodeStrict laxWitness 16 = .err .invalidInput ∧
+    (∃ b, Xz.decode true laxWitnessVli 16 = .ok [0x41] 60 b) ∧ decodeStrict laxWitnessVli 16 = .err .invalidData ∧
+    (∃ b, Xz.decode true laxWitnessIndexVli 16 = .ok [0x41] 57 b) ∧
+    decodeStrict laxWitnessIndexVli 16 = .err .invalidData :=
+  ⟨lax_not_strict_witness.1, lax_not_strict_witness.2.2, lax_not_strict_witness_vli.1, lax_not_strict_witness_vli.2,
+   lax_not_strict_witness_index_vli.1, lax_not_strict_witness_index_vli.2⟩
 
-/-- beyond 2^34 bytes of Index the writer's footer is wrong (truncating cast) and the strict decoder,
-    like liblzma, rejects what the crate's own reader still accepts -/
-theorem xz_writer_index_overflow_rejected (c : Check) (N : Nat) (hN : 2 ^ 34 < N) (hN2 : N < 2 ^ 63) :=
+/-- beyond 2^34 bytes of Index the writer's footer is wrong (truncating cast): the strict decoder, like liblzma,
+    and the crate's own reader reject the writer's output -/
+theorem xz_writer_index_overflow_rejected (c : Check) (N : Nat) (hN : 2 ^ 34 < N) (hN2 : N < 2 ^ 63) :
+    Xz.decode false (streamBytes c [.lzma2 4096] (List.replicate N tinyBlock)) N = .err .invalidData ∧
+    decodeStrict (streamBytes c [.lzma2 4096] (List.replicate N tinyBlock)) N = .err .invalidData :=
   writer_index_overflow c N hN hN2
 
 /-- every multi-member LZIP file the writer model emits is accepted by the (field-by-field strict) reader
@@ -62,8 +69,7 @@ theorem xz_writer_index_overflow_rejected (c : Check) (N : Nat) (hN : 2 ^ 34 < N
 theorem lzip_writer_output_is_valid (ms : List (Nat × List Nat × List Nat)) (hne : ms ≠ [])
     (hm : ∀ m ∈ ms, LzipFile.MemberOk m) (cap : Nat) (hcap : (LzipFile.fileData ms).length ≤ cap) :
     LzipFile.decode (LzipFile.fileBytes ms) cap =
-      .ok (LzipFile.fileData ms) (LzipFile.fileBytes ms).length (LzipFile.fileRecs ms) := by
-  have h := LzipFile.lzip_roundtrip_recs ms hne hm [] (by decide) cap hcap
-  simpa using h
+      .ok (LzipFile.fileData ms) (LzipFile.fileBytes ms).length (LzipFile.fileRecs ms) :=
+  LzipFile.lzip_roundtrip_recs_nil ms hne hm cap hcap
 
 end LzmaVerif.Props.C03
